@@ -17,8 +17,11 @@
      holds the span, and none of its children holds it: it is the lowest node that contains the span.
    NOT PROVED: the source scanners (next_frag, prev_frag, next_find, delimiters), pars(), the computed locations,
    that find_in_loc finds a node whenever one lies within the span (only: what it returns does, and is a descendant),
-   find_loc and find_contains_loc with allow_exact other than True: decided by the tokenize-based oracle and
-   the brute-force search oracle in py/props/C06.py (partial). *)
+   find_loc: decided by the tokenize-based oracle and the brute-force search oracle in py/props/C06.py (partial).
+   - (models/FindLoc.v, allow_exact = 'top' / False) relative to the path of nodes the default search enters (on a well-formed
+     tree a chain: each a child of the one before, each holding the span): 'top' returns the FIRST node on that path whose
+     location is exactly the span - the highest of several nodes at one location - and otherwise what the default search returns;
+     False returns the node in front of that first exact node; allow_exact=True is the default search. *)
 From Coq Require Import List NArith Bool Arith.
 From PF Require Import kernel.PyBase kernel.Text models.Bistr proofs.BistrProofs models.FindLoc proofs.FindLocProofs.
 Import ListNotations.
@@ -62,6 +65,26 @@ Print Assumptions C06_find_scan_over_descendants_is_the_scan_over_children.
 Theorem C06_find_in_loc_answer_lies_within_the_span : forall a b fuel self x, descend_in fuel a b self = Some x -> within a b x /\ In x (desc self).
 Proof. exact find_in_sound. Qed.
 Print Assumptions C06_find_in_loc_answer_lies_within_the_span.
+
+Theorem C06_find_contains_loc_top_returns_the_first_exact_node_on_the_descent : forall a b fuel self,
+  descend_m MTop fuel a b self = first_or (fun x => exact x a b) (path fuel a b self) (last (path fuel a b self) self).
+Proof. exact descend_top. Qed.
+Print Assumptions C06_find_contains_loc_top_returns_the_first_exact_node_on_the_descent.
+
+Theorem C06_find_contains_loc_strict_stops_above_the_first_exact_node : forall a b fuel self,
+  descend_m MStrict fuel a b self = before_first (fun x => exact x a b) (path fuel a b self) self.
+Proof. exact descend_strict. Qed.
+Print Assumptions C06_find_contains_loc_strict_stops_above_the_first_exact_node.
+
+Theorem C06_find_contains_loc_default_is_the_end_of_the_descent : forall a b fuel self,
+  descend_m MExact fuel a b self = descend fuel a b self /\ descend fuel a b self = last (path fuel a b self) self.
+Proof. intros. split; [apply descend_exact_mode|apply descend_last]. Qed.
+Print Assumptions C06_find_contains_loc_default_is_the_end_of_the_descent.
+
+Theorem C06_find_descent_is_a_chain_of_children_holding_the_span : forall a b fuel self, size self <= fuel -> wf self = true ->
+  chain a b self (path fuel a b self).
+Proof. exact path_is_chain. Qed.
+Print Assumptions C06_find_descent_is_a_chain_of_children_holding_the_span.
 
 (* "aé€😀b": widths 1,2,3,4,1 *)
 Example C06_nonvacuous :
